@@ -25,8 +25,14 @@ MANIFEST = dict(
 NU = "esutil.numpy_util."
 
 
+# rules that keep their verdict however the code is laid out (decided by term equality, effect analysis or dominance over
+# resolved calls); every other rule of this check is a template rule (vcheck.core.Check.obt)
+SEMANTIC = ('R06.1', 'R06.2')
+
+
 def run(chk):
     repo = PyRepo()
+    chk.set_templates(repo, semantic=SEMANTIC)
     chk.explanation = MANIFEST["text"]
     chk.trusted = ["numpy.argsort / searchsorted / unique / where semantics", "CPython ast"]
     chk.floor = 30
